@@ -39,7 +39,7 @@ def _nontrivial(ast, perts, status, text):
     return any(p.cls in ("spN", "tab", "blankN", "blank_ws", "trail_nl", "nl_ind", "blank") for p in perts)
 
 
-CFG = RT.Config(ID, CLASSES, check, weights=_W, allow_string_interp=False, nontrivial=_nontrivial)
+CFG = RT.Config(ID, CLASSES, check, weights=_W, allow_string_interp=False, allow_attrpath=False, nontrivial=_nontrivial)
 
 
 def plan(tier):
